@@ -5,7 +5,7 @@ import webauthn
 
 from .. import cases, corr, common, faults
 from ..check import Result
-from ..driver import Driver
+from ..driver import Driver, has_surrogate
 from ..oracle import Oracle
 from ..sim import attest, core
 from . import _auth, _opts, _reg
@@ -98,6 +98,16 @@ def build_pool(rng, quick):
             req, r = b
             pool.append(("verify_reg", (r.credential, _reg.expectation(req, r.roots, algs=[-8, -259, -36, -257] if ch[2] != core.RS1 else [-7, -259, -8]))))
             pool.append(("verify_reg", (r.credential, dict(_reg.expectation(req, r.roots), algs=None))))
+    # other RP IDs: a ceremony for b.example under its own id, the same response under a.example, and under an RP ID that cannot
+    # be encoded (whatever that raises, it raises every time)
+    a, e, _ = faults.build_assertion(cs[0], flags=core.UP | core.UV, rp_id="b.example", origin="https://b.example")
+    for rp in ("b.example", "a.example", "\udc80.example"):
+        pool.append(("verify_auth", (a, dict(e, rp_id=rp))))
+    b = _reg.build("none", _reg.cred_choices("none")[0], (), rp_id="b.example", origin="https://b.example")
+    if b is not None:
+        req, r = b
+        for rp in ("b.example", "a.example", "\udc80.example"):
+            pool.append(("verify_reg", (r.credential, dict(_reg.expectation(req, r.roots), rp_id=rp))))
     for i in range(6 if quick else 20):
         a = _opts.rand_reg_args(rng)
         a["challenge"], a["user_id"] = rng.bytes_(32), rng.bytes_(16)      # deterministic outcome
@@ -274,10 +284,23 @@ def _run(ctx, res):
     drv = Driver(Oracle()) if ctx.driver_ok else None
     tie = corr.Tie(res, drv, "eq")
     for i, spec in enumerate(pool):   # the model's history-free outcome
+        if spec[0] in ("verify_auth", "verify_reg") and has_surrogate(spec[1][1]["rp_id"]):
+            continue                  # not expressible in the model's strings; judged on the real code by the histories
         if spec[0] == "verify_auth":
             tie.check(cases.auth_case(*spec[1]), cases.run_auth(*spec[1]), label=["pool", i])
         elif spec[0] == "verify_reg":
             tie.check(cases.reg_case(*spec[1]), cases.run_reg(*spec[1]), label=["pool", i])
+    # every call repeated immediately (three times in a row): the second and third outcome are the first
+    for idx, spec in enumerate(pool):
+        for rep in range(3):
+            out, result, before, after = execute(spec)
+            res.evaluations += 1
+            if out != reference[idx]:
+                res.violations.append({"why": f"a {spec[0]} call repeated immediately gives another outcome the {rep + 1}. time: {str(out)[:160]} instead of {str(reference[idx])[:160]}",
+                                       "history": [spec[0]] * (rep + 1), "alone": reference[idx], "in_history": out,
+                                       "case": (cases.auth_case(*spec[1]) if spec[0] == "verify_auth" else cases.reg_case(*spec[1])) if spec[0].startswith("verify") and not has_surrogate(spec[1][1]["rp_id"]) else None,
+                                       "match": {"op": spec[0], "rule": "history"}})
+                break
     # histories
     n_hist, length = (200, 30) if ctx.quick() else (4000, 30)
     for h in range(n_hist):
